@@ -361,9 +361,30 @@ fn rtoken(rng: &mut Rng, below: u64) -> Vec<u8> {
     gen_token(rng, n)
 }
 
+/// every row of the static table, exactly and with a near miss in its value or in its name
+fn static_row_cases(rng: &mut Rng, op: &str, emit: &mut Emit) {
+    use wtverif_harness::static_rows::STATIC_ROWS;
+    for (k, v) in STATIC_ROWS {
+        let (k, v) = (k.as_bytes().to_vec(), v.as_bytes().to_vec());
+        emit(op, vec![pairs_s(&[(k.clone(), v.clone())])]);
+        if !v.is_empty() {
+            for _ in 0..3 {
+                emit(op, vec![pairs_s(&[(k.clone(), wtverif_harness::near_miss(rng, &v))])]);
+            }
+        }
+        if !k.starts_with(b":") {
+            emit(op, vec![pairs_s(&[(wtverif_harness::near_miss(rng, &k), v.clone())])]);
+        }
+    }
+}
+
 fn gen_value(rng: &mut Rng) -> Vec<u8> {
-    match rng.below(8) {
+    match rng.below(9) {
         0 => rng.pick(STATIC_VALUES).as_bytes().to_vec(),
+        8 => {
+            let v = rng.pick(&wtverif_harness::static_rows::STATIC_ROWS).1.as_bytes().to_vec();
+            wtverif_harness::near_miss(rng, &v)
+        }
         1 => vec![],
         2 => {
             // multi-byte UTF-8 (Huffman-expanding)
@@ -387,8 +408,9 @@ fn gen_value(rng: &mut Rng) -> Vec<u8> {
 }
 
 fn gen_name(rng: &mut Rng) -> Vec<u8> {
-    match rng.below(5) {
+    match rng.below(6) {
         0 | 1 => rng.pick(STATIC_NAMES).as_bytes().to_vec(),
+        5 => rng.pick(&wtverif_harness::static_rows::STATIC_ROWS).0.as_bytes().to_vec(),
         2 => {
             let n = *rng.pick(&[1usize, 6, 7, 8, 9, 126, 127, 134, 135]);
             gen_token(rng, n)
@@ -628,6 +650,8 @@ pub fn gen_c14_more(_thorough: bool, scale: u64, rng: &mut Rng, emit: &mut Emit)
             emit("qpack.encode", vec![pairs_s(&m)]);
         }
     }
+    static_row_cases(rng, "qpack.encode", emit);
+    static_row_cases(rng, "headers.rt", emit);
     // every static-table row as key/value hit and as key-only hit
     for name in STATIC_NAMES {
         for val in STATIC_VALUES.iter().take(6) {
@@ -987,6 +1011,7 @@ pub fn generate(prop: &str, thorough: bool, rng: &mut Rng, emit: &mut Emit) {
                 let m = gen_header_map(rng, 8);
                 emit("headers.rt", vec![pairs_s(&m)]);
             }
+            static_row_cases(rng, "headers.rt", emit);
             for _ in 0..300 * scale {
                 let host = *rng.pick(&["example.org", "127.0.0.1", "[::1]", "xn--nxasmq6b.example", "localhost"]);
                 let port = if rng.chance(1, 2) { format!(":{}", rng.range(1, 65535)) } else { String::new() };
